@@ -111,6 +111,10 @@ def run_oset(oset: ObligationSet, loader, max_paths=MAX_PATHS, obl_timeout_ms=No
         path = Path(prefix)
         if obl_timeout_ms:
             path.OBL_TIMEOUT_MS = obl_timeout_ms
+        if oset.timeout_ms:
+            # an obligation set that states its own budget (formulas the primary solver is known to be slow on,
+            # e.g. sequences): branch-feasibility queries get the same budget; `unknown` counts as feasible (sound)
+            path.FEAS_TIMEOUT_MS = min(path.FEAS_TIMEOUT_MS, oset.timeout_ms)
         it = Interp(loader)
         it.path = path
         it.undo = []
